@@ -44,7 +44,9 @@ CHECKS = {
     "C13": retry("M |= abort/cancellation monitor: abort polls before every attempt and sleep, nothing after an abort "
                  "request, cancellation kinds from operation, before_sleep and sleeper propagate unchanged", "5/C13"),
     "C14": retry("M |= event-stream monitor: retry(i)* then exactly one terminal event, tags vs final failure and "
-                 "delivered stop reason, metric/log sink parity", "5/C14"),
+                 "delivered stop reason, metric/log sink parity, captured timeline = metric/log stream; policy level "
+                 "(PolicyCall.tla / PolicyMon.tla): breaker transitions and rejections reported with attempt 0 and "
+                 "the breaker's state, incl. histories with direct breaker operations by other users", "5/C14"),
     "C16": retry("M |= sleep-handler protocol monitor for all decision sequences, before_sleep present/absent, "
                  "policy-level / call-level / both placements (decoy callbacks), awaitable variants", "5/C16"),
     "C07": ("model_checking",
@@ -55,8 +57,9 @@ CHECKS = {
             "graph replay on the real CircuitBreaker; every exported sequential and concurrent behaviour replayed "
             "through Policy/AsyncPolicy; TLC trace validation (PolicyTrace.tla, ConcTrace.tla)",
             "M |= C07 at breaker level (reject while open up to the exact timeout, single probe, close clears history, "
-            "failed probe re-opens), at policy level (no invocation and no record by a rejected call) for sequences "
-            "of calls with clock gaps around recovery_timeout_s, and under concurrency: PolicyConc.tla explores all "
+            "failed probe re-opens), at policy level (no invocation and no record by a rejected call, the probe's own "
+            "result closes or re-opens) for sequences of calls - and direct breaker operations by other users - with "
+            "clock gaps around recovery_timeout_s, and under concurrency: PolicyConc.tla explores all "
             "interleavings of 4 calls sharing a breaker (M |= P except the two known-finding clauses) and the "
             "exported interleavings are replayed by driving real AsyncPolicy coroutines by hand",
             "virtual clock; breaker observed through a delegating subclass; concurrent calls have no retry component "
